@@ -206,6 +206,10 @@ def make_plan(seed: int, tier: str, index: int) -> dict[str, Any]:
             ops.append(op)
         clients.append(ops)
     knobs: dict[str, Any] = {}
+    if p.random() < 0.5:
+        # each caller thread keeps one selection object per distinct selection and passes the same
+        # object to every parse
+        knobs["reuse_selection_objects"] = True
     if n_clients == 1 and sub in ("none", "cache_clear", "long", "io") and p.random() < 0.8:
         # logging state is process history too: some parses happen while the application has
         # logging switched off (nothing is reported then; the chart is the same)
@@ -562,6 +566,8 @@ def execute(plan: dict[str, Any]) -> dict[str, Any]:
 
         def body(client: Any) -> None:
             nonlocal n_ops
+            if (plan.get("knobs") or {}).get("reuse_selection_objects"):
+                world.use_selection_pool({})
             for k, op in enumerate(ops):
                 if (ci, k) in clear_at:
                     import gc
